@@ -120,7 +120,7 @@ where
                 if try_ { b.try_alloc_uninit_slice::<E>($n)? } else { b.alloc_uninit_slice::<E>($n) }
             };
         }
-        match ctx.rng.below(14) {
+        match ctx.rng.below(17) {
             0 => scenario::<E>(ctx, format!("init_fill {n} x {x} on {t}alloc_uninit_slice"), |_| {
                 let s = uninit_slice!(n).init_fill(E::make(x));
                 Ok(expect_eq("init_fill", vals(&s), vec![x; n]))
@@ -269,6 +269,15 @@ where
                 let it = HintIter { it: mk(&xs).into_iter(), hint: *[0usize, n, n / 2].get(x as usize % 3).unwrap() };
                 let s = if try_ { b.try_alloc_iter(it)? } else { b.alloc_iter(it) };
                 Ok(expect_eq("alloc_iter", vals(&s), xs.clone()))
+            }),
+            14 => scenario::<E>(ctx, format!("{t}alloc_slice_clone of {n}"), |_| {
+                let src = mk(&xs);
+                let s = if try_ { b.try_alloc_slice_clone(&src)? } else { b.alloc_slice_clone(&src) };
+                Ok(expect_eq("alloc_slice_clone", vals(&s), xs.clone()))
+            }),
+            15 => scenario::<E>(ctx, format!("{t}alloc_slice_fill {n} x {x}"), |_| {
+                let s = if try_ { b.try_alloc_slice_fill(n, E::make(x))? } else { b.alloc_slice_fill(n, E::make(x)) };
+                Ok(expect_eq("alloc_slice_fill", vals(&s), vec![x; n]))
             }),
             _ => scenario::<E>(ctx, format!("{t}alloc_default / alloc_with {x}"), |_| {
                 let w = if try_ {
